@@ -36,6 +36,66 @@ def impl_fd(f, m, p, c, dx):
         return 'IOtherErr'
 
 
+LAP_MODES = ['constant', 'symmetric', 'symmetric_adjoint', 'periodic', 'order0', 'order0_adjoint']
+
+
+def _arr(rng, shape):
+    n = int(np.prod(shape))
+    return np.array([float(rng.randint(-5, 5)) for _ in range(n)]).reshape(shape)
+
+
+def nd_cases(rng, tier):
+    import odl
+    cs = C.CaseSet('ops_nd', ['C13.Syntax', 'Gen.FiniteDiff', 'C13.Model', 'C13.ModelNd', 'C13.Corr'],
+                   'checkN', 'caseN')
+    nper = 3 if tier == 'quick' else 12
+    for kind in ('pd', 'grad', 'div', 'lap'):
+        for m in (METHS if kind != 'lap' else ['forward']):
+            for p in (PMODES if kind != 'lap' else LAP_MODES):
+                for _ in range(nper):
+                    ndim = rng.choice([1, 2, 2, 3])
+                    lo = 3 if p.startswith('order2') else 2
+                    shape = [rng.randint(lo, 4 if ndim > 1 else 6) for _ in range(ndim)]
+                    dxs = [rng.choice([1.0, 0.5, 2.0, 0.25]) for _ in range(ndim)]
+                    c = float(rng.choice([0, 0, 0, 1, -2])) if p == 'constant' else 0.0
+                    space = odl.uniform_discr([0.0] * ndim, [n * d for n, d in zip(shape, dxs)], shape)
+                    if kind == 'pd':
+                        ax = rng.randrange(ndim)
+                        op = odl.PartialDerivative(space, ax, method=m, pad_mode=p, pad_const=c)
+                        opk = '(OpPD %d)' % ax
+                    elif kind == 'grad':
+                        op = odl.Gradient(space, method=m, pad_mode=p, pad_const=c); opk = 'OpGrad'
+                    elif kind == 'div':
+                        op = odl.Divergence(range=space, method=m, pad_mode=p, pad_const=c); opk = 'OpDiv'
+                    else:
+                        op = odl.Laplacian(space, pad_mode=p, pad_const=c); opk = 'OpLap'
+                    def pack(el, sp):
+                        if isinstance(sp, odl.ProductSpace):
+                            return [np.asarray(e).ravel().tolist() for e in el]
+                        return [np.asarray(el).ravel().tolist()]
+                    def rand_el(sp):
+                        if isinstance(sp, odl.ProductSpace):
+                            return sp.element([_arr(rng, shape) for _ in range(len(sp))])
+                        return sp.element(_arr(rng, shape))
+                    x = rand_el(op.domain)
+                    out = op(x)
+                    lin = bool(op.is_linear)
+                    if lin:
+                        y = rand_el(op.range)
+                        adj = pack(op.adjoint(y), op.domain)
+                        yy = pack(y, op.range)
+                    else:
+                        adj, yy = [], []
+                    term = ('{| n_op := %s; n_shape := %s; n_m := %s; n_p := %s; n_c := %s; n_dxs := %s; '
+                            'n_x := %s; n_out := %s; n_linear := %s; n_y := %s; n_adj := %s |}'
+                            % (opk, C.nats(shape) + '%nat', T.METH[m], T.PMODE[p], C.q(c), C.qs(dxs),
+                               C.qss(pack(x, op.domain)), C.qss(pack(out, op.range)), C.b(lin),
+                               C.qss(yy), C.qss(adj)))
+                    cs.add(term, {'op': kind, 'shape': shape, 'method': m, 'pad_mode': p, 'pad_const': c,
+                                  'dx': dxs}, (kind, tuple(shape), m, p, c, tuple(dxs)))
+    return cs
+
+
 def correspondence(rng, tier):
     cs = C.CaseSet('fd1d', ['C13.Syntax', 'Gen.FiniteDiff', 'C13.Model', 'C13.Corr'], 'check1', 'case1')
     sizes = range(2, 8) if tier == 'quick' else range(2, 11)
@@ -52,7 +112,134 @@ def correspondence(rng, tier):
                     % (T.METH[m], T.PMODE[p], C.q(c), C.q(dx), C.qs(f), out))
             key = (m, p, n, dx, c, tuple(f)) if any(f) else None
             cs.add(term, {'method': m, 'pad_mode': p, 'f': f, 'dx': dx, 'pad_const': c}, key)
-    return [cs]
+    return [cs, nd_cases(rng, tier)]
+
+
+def _ref_fd(f, m, p, c, dx):
+    """Independent reference: textbook stencil on the array extended by the named rule."""
+    n = len(f)
+    if p == 'constant':
+        l, r = c, c
+    elif p in ('symmetric', 'order0'):
+        l, r = f[0], f[-1]
+    elif p == 'periodic':
+        l, r = f[-1], f[0]
+    elif p == 'order1':
+        l, r = 2 * f[0] - f[1], 2 * f[-1] - f[-2]
+    elif p == 'order2':
+        l, r = 3 * f[0] - 3 * f[1] + f[2], 3 * f[-1] - 3 * f[-2] + f[-3]
+    e = np.concatenate([[l], f, [r]])
+    if m == 'central':
+        return (e[2:] - e[:-2]) / 2.0 / dx
+    if m == 'forward':
+        return (e[2:] - e[1:-1]) / dx
+    return (e[1:-1] - e[:-2]) / dx
+
+
+def _flat(el):
+    import odl
+    if isinstance(el.space, odl.ProductSpace):
+        return np.concatenate([np.asarray(e).ravel() for e in el])
+    return np.asarray(el).ravel()
+
+
+def _matrix(op):
+    import odl
+    dom = op.domain
+    cols = []
+    n = int(sum(np.prod(sp.shape) for sp in dom)) if isinstance(dom, odl.ProductSpace) else int(np.prod(dom.shape))
+    for j in range(n):
+        e = np.zeros(n)
+        e[j] = 1.0
+        if isinstance(dom, odl.ProductSpace):
+            k = n // len(dom)
+            x = dom.element([e[i * k:(i + 1) * k].reshape(dom[0].shape) for i in range(len(dom))])
+        else:
+            x = dom.element(e.reshape(dom.shape))
+        cols.append(_flat(op(x)))
+    return np.array(cols).T
+
+
+def probes(rng, tier):
+    import odl
+    from odl.discr.diff_ops import finite_diff
+    out = []
+    base = ['constant', 'symmetric', 'periodic', 'order0', 'order1', 'order2']
+    sizes = range(2, 9) if tier == 'quick' else range(2, 14)
+    for m, p, n in itertools.product(METHS, base, sizes):
+        if n < (3 if p == 'order2' else 2):
+            continue
+        f = np.array([float(rng.randint(-9, 9)) for _ in range(n)])
+        dx = rng.choice([1.0, 0.5, 2.0])
+        c = float(rng.choice([0, 1, -2])) if p == 'constant' else 0.0
+        got = finite_diff(f, axis=0, dx=dx, method=m, pad_mode=p, pad_const=c)
+        want = _ref_fd(f, m, p, c, dx)
+        ok = bool(np.array_equal(got, want))
+        key = 'order2-onesided' if (p == 'order2' and m != 'central') else 'textbook-%s-%s' % (m, p)
+        rp = ("import numpy as np\nfrom odl.discr.diff_ops import finite_diff\n"
+              "f=np.array(%r); got=finite_diff(f,axis=0,dx=%r,method=%r,pad_mode=%r,pad_const=%r)\n"
+              "expected=np.array(%r); observed=got; ok=bool(np.array_equal(got,expected))\n"
+              % (f.tolist(), dx, m, p, c, want.tolist()))
+        out.append(C.Probe(ok, key, 'finite_diff(%s,%s) n=%d vs textbook stencil on the extended array' % (m, p, n), rp))
+    # adjoint = transpose of the matrix, on uniformly weighted spaces (incl. short axes)
+    nper = 1 if tier == 'quick' else 4
+    for kind in ('pd', 'grad', 'div', 'lap'):
+        for m in (METHS if kind != 'lap' else ['forward']):
+            for p in (PMODES if kind != 'lap' else LAP_MODES):
+                for _ in range(nper):
+                    ndim = rng.choice([1, 2])
+                    lo = 3 if p.startswith('order2') else 2
+                    shape = [rng.randint(lo, 4) for _ in range(ndim)]
+                    dxs = [rng.choice([1.0, 0.5, 2.0]) for _ in range(ndim)]
+                    ax = rng.randrange(ndim)
+                    rp = ("import odl, numpy as np, sys\nsys.path.insert(0, %r)\nfrom harness.c13 import _matrix\n"
+                          "space=odl.uniform_discr(%r,%r,%r)\n" % (C.VERIF, [0.0] * ndim,
+                                                                  [n_ * d for n_, d in zip(shape, dxs)], shape))
+                    ctor = {'pd': "odl.PartialDerivative(space,%d,method=%r,pad_mode=%r)" % (ax, m, p),
+                            'grad': "odl.Gradient(space,method=%r,pad_mode=%r)" % (m, p),
+                            'div': "odl.Divergence(range=space,method=%r,pad_mode=%r)" % (m, p),
+                            'lap': "odl.Laplacian(space,pad_mode=%r)" % (p,)}[kind]
+                    rp += ("op=%s\nM=_matrix(op); A=_matrix(op.adjoint)\nobserved=A.tolist(); expected=M.T.tolist()\n"
+                           "ok=bool(np.array_equal(A, M.T))\n" % ctor)
+                    env = {}
+                    try:
+                        exec(rp, env)
+                        ok = env['ok']
+                    except Exception as e:
+                        ok = False
+                    out.append(C.Probe(ok, 'adjoint-%s-%s-%s' % (kind, m, p),
+                                       '%s adjoint matrix equals the transpose (shape %s)' % (ctor, shape), rp))
+    # derivative of the affine constant-padding variant = zero-padding version
+    for kind in ('pd', 'grad', 'div', 'lap'):
+        for m in METHS:
+            shape = [rng.randint(2, 4) for _ in range(rng.choice([1, 2]))]
+            space = odl.uniform_discr([0.0] * len(shape), [float(n_) for n_ in shape], shape)
+            c = float(rng.choice([1, -2, 3]))
+            op = {'pd': lambda: odl.PartialDerivative(space, 0, method=m, pad_const=c),
+                  'grad': lambda: odl.Gradient(space, method=m, pad_const=c),
+                  'div': lambda: odl.Divergence(range=space, method=m, pad_const=c),
+                  'lap': lambda: odl.Laplacian(space, pad_const=c)}[kind]()
+            x = op.domain.element([_arr(rng, shape) for _ in range(len(op.domain))] if isinstance(op.domain, odl.ProductSpace) else _arr(rng, shape))
+            h = op.domain.element([_arr(rng, shape) for _ in range(len(op.domain))] if isinstance(op.domain, odl.ProductSpace) else _arr(rng, shape))
+            d = op.derivative(x)
+            ok = (not op.is_linear) and d.is_linear and np.array_equal(_flat(op(x + h)) - _flat(op(x)), _flat(d(h)))
+            out.append(C.Probe(bool(ok), 'affine-derivative-%s-%s' % (kind, m),
+                               '%s with pad_const=%r: derivative is the zero-padding operator and the operator is flagged nonlinear' % (kind, c),
+                               None, {'shape': shape}))
+    # complex dtype: acts on real and imaginary parts separately
+    for m, p in itertools.product(METHS, PMODES):
+        n = rng.randint(3, 6)
+        space = odl.uniform_discr(0, n, n, dtype=complex)
+        rspace = odl.uniform_discr(0, n, n)
+        re, im = _arr(rng, [n]), _arr(rng, [n])
+        op = odl.PartialDerivative(space, 0, method=m, pad_mode=p)
+        rop = odl.PartialDerivative(rspace, 0, method=m, pad_mode=p)
+        got = np.asarray(op(space.element(re + 1j * im)))
+        want = np.asarray(rop(re)) + 1j * np.asarray(rop(im))
+        out.append(C.Probe(bool(np.array_equal(got, want)), 'complex-%s-%s' % (m, p),
+                           'PartialDerivative on a complex space acts on real and imaginary parts', None))
+    return out
+
 
 LEVEL_TEXT = ('Proof: for the tables regenerated from finite_diff on every run, Coq proves for EVERY array length '
               '(short axes included), every entry and pad constant that each (method, base padding) pair equals the '
